@@ -11,7 +11,7 @@
 const char *const dsim_property = "C11";
 namespace {
 enum { STOP_CALLED = 0, STOP_RETURNED = 1, NJOBS = 2, STOPPER_DONE = 3, NWORKERS = 4, NSEEN = 5, WORKER_IDS = 10 /* 8 */,
-       RAN = 100, CANCELLED = 200, ON_WORKER = 300, KIND = 400, SUBMITTED = 500, FIN = 600 /* waiter side finished */, TOKEN_GONE = 700, HOP_RAN = 800, HOP_CANC = 900 };
+       RAN = 100, CANCELLED = 200, ON_WORKER = 300, KIND = 400, SUBMITTED = 500, FIN = 600 /* waiter side finished */, TOKEN_GONE = 700, HOP_RAN = 800, HOP_CANC = 900, SIB = 1000 /* a second coroutine rides on the suspend point of job j */, SIB_RAN = 1100, SIB_CANC = 1200 };
 constexpr int MAXJ = 24;
 
 void ran(cocls::thread_pool &pool, int j) {
@@ -61,6 +61,14 @@ cocls::async<void> k5(cocls::thread_pool &pool, cocls::future<long> &f, int j) {
     try { long v = co_await f; if (v != 500 + j) dsim::fail("C11.value", "job %d got %ld", j, v); ran(pool, j); }
     catch (const cocls::await_canceled_exception &) { cancelled(j); }
     dsim::cell_set(FIN + j, 1);
+}
+// a second waiter of the same future: the suspend point handed to resume() then carries two coroutines, each of which is a unit of work
+cocls::async<void> k5s(cocls::thread_pool &pool, cocls::future<long> &f, int j) {
+    try {
+        long v = co_await f; if (v != 500 + j) dsim::fail("C11.value", "second waiter of job %d got %ld", j, v);
+        if (dsim::cell_add(SIB_RAN + j, 1) != 1) dsim::fail("C11.ran_twice", "second coroutine carried by the suspend point of job %d executed twice", j);
+        if (!is_current(pool)) dsim::fail("C11.not_on_worker", "second coroutine carried by the suspend point of job %d executes on a thread that is not a worker of the pool", j);
+    } catch (const cocls::await_canceled_exception &) { dsim::cell_add(SIB_CANC + j, 1); }
 }
 struct Token { int j; explicit Token(int j) : j(j) {} ~Token() { vs::cell_add_hb(TOKEN_GONE + j, 1); } };
 
@@ -124,9 +132,11 @@ void submit(cocls::thread_pool &pool, int kind, int j, int stop_mode, std::vecto
     default: {
         auto fut = std::make_unique<cocls::future<long>>(); auto p = fut->get_promise();
         k5(pool, *fut, j).detach();
+        if (j % 2) { dsim::cell_set(SIB + j, 1); k5s(pool, *fut, j).detach(); }
         auto sp = p(500 + j);
         dsim::cell_set(SUBMITTED + j, 1);
         pool.resume(sp);
+        if (!sp.empty()) dsim::fail("C11.suspend_point_not_emptied", "resume(suspend_point) of job %d left %zu coroutine(s) in the suspend point: they would be resumed by its destructor, on this thread", j, sp.size());
         bare.push_back({std::move(fut), j});
         break; }
     }
@@ -210,6 +220,11 @@ static void judge() {
         if (r + c > 1) dsim::fail("C11.ran_and_cancelled", "job %d (kind %ld): ran %ld, cancelled %ld", j, kind, r, c);
         if (!bare_kind) dsim::fail("C11.job_forgotten", "job %d (kind %ld) neither ran nor was cancelled", j, kind);
         any_bare_forgotten = true; forgotten = j;
+    }
+    for (int j = 0; j < g_total; j++) if (dsim::cell_get(SIB + j)) {
+        long r2 = dsim::cell_get(SIB_RAN + j), c2 = dsim::cell_get(SIB_CANC + j);
+        if (r2 + c2 > 1) dsim::fail("C11.ran_and_cancelled", "second coroutine of job %d: ran %ld, cancelled %ld", j, r2, c2);
+        if (r2 + c2 == 0) { any_bare_forgotten = true; forgotten = j; }      // same recorded finding: a bare handle dropped by a stopped pool
     }
     // ... then the recorded finding: a submission that carries a bare coroutine handle has no cancel path
     if (any_bare_forgotten) {
